@@ -25,6 +25,10 @@ pub struct Params {
     pub log_io: bool,
     /// extended authentication: CONNECT with an Authentication Method, an AUTH challenge, authorize(), and only then the CONNACK
     pub auth: bool,
+    /// Maximum Packet Size the CLIENT announces in CONNECT (limits what the server may send, never what the client sends)
+    pub own_max: Option<u32>,
+    /// packet identifiers consumed (by untraced, completed UNSUBSCRIBE exchanges) before the traced part of the run starts
+    pub burn: u32,
 }
 
 impl Default for Params {
@@ -40,6 +44,8 @@ impl Default for Params {
             mode: if cfg!(debug_assertions) { "dev".into() } else { "release".into() },
             log_io: false,
             auth: false,
+            burn: 0,
+            own_max: None,
         }
     }
 }
@@ -47,7 +53,7 @@ impl Default for Params {
 impl Params {
     pub fn to_json(&self) -> Value {
         json!({"a": "reset", "run": self.run, "fam": self.fam, "R": self.r, "M": self.m,
-               "sei_connect": self.sei_connect, "sei_connack": self.sei_connack, "disc": self.disc, "log_io": self.log_io, "auth": self.auth})
+               "sei_connect": self.sei_connect, "sei_connack": self.sei_connack, "disc": self.disc, "log_io": self.log_io, "auth": self.auth, "burn": self.burn, "own_max": self.own_max})
     }
     pub fn from_json(v: &Value) -> Params {
         Params {
@@ -60,6 +66,8 @@ impl Params {
             disc: v["disc"].as_str().unwrap_or("wake").to_string(),
             log_io: v["log_io"].as_bool().unwrap_or(false),
             auth: v["auth"].as_bool().unwrap_or(false),
+            burn: v["burn"].as_u64().unwrap_or(0) as u32,
+            own_max: v["own_max"].as_u64().map(|x| x as u32),
             ..Default::default()
         }
     }
@@ -101,6 +109,9 @@ fn handshake(s: &mut Sim, p: &Params) -> bool {
     if let Some(x) = p.sei_connect {
         spec["sei"] = json!(x);
     }
+    if let Some(x) = p.own_max {
+        spec["max_packet"] = json!(x);
+    }
     if p.auth {
         spec["auth_method"] = json!("m");
         spec["auth_data"] = json!("d");
@@ -138,6 +149,30 @@ fn handshake(s: &mut Sim, p: &Params) -> bool {
     ok
 }
 
+/// Consumes `n` packet identifiers with complete, untraced UNSUBSCRIBE exchanges, so that the traced part of the run works
+/// with identifiers beyond one byte / near the wrap (nothing of these exchanges is left behind in the client).
+fn burn(s: &mut Sim, n: u32) {
+    s.quiet = true;
+    let k = 9_000_000usize;
+    for _ in 0..n {
+        s.call(k, 0, &json!({"kind": "unsub", "filters": [{"f": "burn"}]}));
+        s.poll_op(k);
+        s.poll_ctx();
+        let id = s.wire.packets.last().and_then(|p| p.id).unwrap_or(0);
+        let mut a = Pk::new(mqtt::UNSUBACK);
+        a.id = Some(id);
+        a.rcs = vec![0];
+        s.inject_packet(&a, 9);
+        s.poll_ctx();
+        s.poll_op(k);
+        s.forget_op(k);
+        s.wire.packets.clear();
+        s.wire.raw.clear();
+    }
+    s.ctx_results.clear();
+    s.quiet = false;
+}
+
 /// New client, connected and with `run()` started (not yet polled). The handshake itself is
 /// not traced; the `reset` line carries its parameters.
 pub fn start(p: &Params) -> Sim {
@@ -145,6 +180,9 @@ pub fn start(p: &Params) -> Sim {
     s.log_io = p.log_io;
     s.pipe.0.lock().unwrap().log_io = p.log_io;
     let ok = handshake(&mut s, p);
+    if ok && p.burn > 0 {
+        burn(&mut s, p.burn);
+    }
     let sei = effective_sei(p);
     s.emit(json!({
         "e": "reset", "run": p.run, "fam": p.fam, "R": p.r.unwrap_or(65535), "M": p.m.unwrap_or(0).min(i32::MAX as u32),
@@ -445,6 +483,31 @@ pub fn exec_step(s: &mut Sim, rng: &mut StdRng, st: &Value) -> bool {
             s.poll_ctx();
             s.quiet = false;
             s.emit(json!({"e": "markdisc", "secs": secs}));
+            true
+        }
+        "burnsub" => {
+            // n complete, untraced subscribe() calls (SUBACK granted, stream dropped at once)
+            let n = st["n"].as_u64().unwrap_or(0);
+            s.quiet = true;
+            let k = 9_000_001usize;
+            for _ in 0..n {
+                s.call(k, 0, &json!({"kind": "sub", "filters": [{"f": "burn", "qos": 0}]}));
+                s.poll_op(k);
+                s.poll_ctx();
+                let id = s.wire.packets.last().and_then(|p| p.id).unwrap_or(0);
+                let mut a = Pk::new(mqtt::SUBACK);
+                a.id = Some(id);
+                a.rcs = vec![0];
+                s.inject_packet(&a, 9);
+                s.poll_ctx();
+                s.poll_op(k);
+                s.drop_stream(k);
+                s.forget_op(k);
+                s.wire.packets.clear();
+                s.wire.raw.clear();
+            }
+            s.quiet = false;
+            s.emit(json!({"e": "note", "burnsub": n}));
             true
         }
         "reconnect" => {
@@ -831,7 +894,9 @@ pub fn walk(p: &Params, cfg: &WalkCfg, seed: u64) -> (Vec<Value>, Vec<String>) {
                 } else if !b.q2_open.is_empty() && r < cfg.redeliver_pct + 30 {
                     let i = rng.gen_range(0..b.q2_open.len());
                     let (id, _) = b.q2_open.remove(i);
-                    do_step(&mut s, &mut rng, &mut script, json!({"a": "pkt", "pk": {"t": "PUBREL", "id": id, "rc": 0}}));
+                    // a PUBREL releases the identifier whatever its reason code (0x92 is the only other one) and form
+                    let (rc, form) = *choose(&mut rng, &[(0u8, 2u8), (0, 2), (0, 3), (0, 9), (0x92, 3), (0x92, 9)]);
+                    do_step(&mut s, &mut rng, &mut script, json!({"a": "pkt", "pk": {"t": "PUBREL", "id": id, "rc": rc}, "form": form}));
                 } else if b.last_q1.is_some() && r >= 92 {
                     // QoS 1 re-delivery: same identifier and content with DUP set, directly after the first copy or later;
                     // at-least-once: it is a PUBLISH like any other (acknowledged, yielded)
@@ -867,8 +932,19 @@ pub fn walk(p: &Params, cfg: &WalkCfg, seed: u64) -> (Vec<Value>, Vec<String>) {
                     if rng.gen_range(0..5) == 0 {
                         props.push(json!([0x03, "ct"]));
                     }
+                    // properties long enough for a two-byte (rarely three-byte) Property Length
+                    match rng.gen_range(0..40) {
+                        0 | 1 => props.push(json!([0x26, "long", "v".repeat(*choose(&mut rng, &[120usize, 121, 122, 123, 130, 200, 300]))])),
+                        2 => props.push(json!([0x09, "c".repeat(*choose(&mut rng, &[125usize, 126, 16381, 16390]))])),
+                        _ => {}
+                    }
+                    // a Topic Alias standing in for the Topic Name (zero-length name)
+                    let aliased = rng.gen_range(0..25) == 0;
+                    if aliased {
+                        props.push(json!([0x23, 1 + rng.gen_range(0..3)]));
+                    }
                     let pkj = json!({"t": "PUBLISH", "qos": qos, "id": id, "dup": 0, "retain": (rng.gen_range(0..5) == 0) as u8,
-                        "topic": format!("in/{}", b.next_in), "payload": {"tag": format!("i{}", b.next_in), "n": *choose(&mut rng, &[0usize, 3, 40, 200])},
+                        "topic": if aliased { String::new() } else { format!("in/{}", b.next_in) }, "payload": {"tag": format!("i{}", b.next_in), "n": *choose(&mut rng, &[0usize, 3, 40, 200])},
                         "sids": sids, "props": props});
                     if qos == 2 {
                         b.q2_open.push((id, pkj.clone()));
